@@ -340,7 +340,10 @@ def _rand_frags(rng, atoms_pool, max_atoms):
     return [['N', 'a']]
 
 
-HERE_MARKERS = ['EOF', 'END', '-', 'eof', 'a-b', 'M1', '---', 'EOF2']
+HERE_MARKERS = ['EOF', 'END', '-', 'eof', 'a-b', 'M1', '---', 'EOF2',
+                # every character of the documented marker alphabet (letters, digits, `_`, `-`) occurs in some marker
+                '0', 'E0F', 'END_10', '0123456789', '9', '_', '_x_', 'abcdefghijklm', 'nopqrstuvwxyz', 'ABCDEFGHIJKLM',
+                'NOPQRSTUVWXYZ', 'Z', 'z', 'a', 'A']
 ODD_MARKERS = ['E.O.F', 'EOF!', 'é']  # "Any single-word string may be used as MARKER"
 
 
@@ -396,6 +399,7 @@ def core_other_items():
     for marker in HERE_MARKERS:
         for ctx in ('file', 'defstr', 'argv'):
             yield {'t': 'here', 'marker': marker, 'lines': [], 'ctx': ctx, 'v': v}
+            yield {'t': 'here', 'marker': marker, 'lines': ['body ' + marker, marker + marker, ''], 'ctx': ctx, 'v': v + 1}
             v += 1
     for marker in ODD_MARKERS:
         for ctx in ('file', 'defstr', 'argv'):
